@@ -21,7 +21,10 @@ Op kinds (x, xs = input streams; o, os = output streams):
   shuf     {"x", "o"}                         harness barrier step: re-emits its tokens in a seeded permutation
                                               (what concurrent jobs of an ExecuteStep do with completion order)
   zip      {"xs", "o", "f"}                   Transformer, 2..3 inputs of the same shape
-  exec     {"xs", "o", "f", "slow"}           [dot CombinatorStep if 2 inputs ->] Schedule -> Execute
+  exec     {"xs", "o", "f", "slow"[, "targets"]}  [dot CombinatorStep if 2 inputs ->] Schedule -> Execute
+                                              "targets": indices (2..3 of 0,1,2) of distinct local deployments; the
+                                              BindingConfig then lists that many alternative targets and every
+                                              deployment's DeployStep connector port is wired into the ScheduleStep
   scatter  {"x", "o"}                         ScatterStep (new dimension named o)
   gather   {"x", "o"}                         GatherStep over the innermost dimension of x
   dot      {"xs", "os"}                       CombinatorStep(DotProductCombinator), broadcast of parents
@@ -286,6 +289,12 @@ def gen_program(rng, cls="plain", max_ops=10, max_depth=4, max_tags=48, loops=Tr
     def state():
         return denote({"ops": ops})
 
+    def with_targets(op):
+        """a seeded share of the schedule/execute pipelines is bound to 2-3 alternative local deployments"""
+        if rng.random() < 0.4:
+            op["targets"] = sorted(rng.sample([0, 1, 2], rng.choice([2, 2, 3])))
+        return op
+
     def try_add(new_ops):
         trial = ops + new_ops
         try:
@@ -328,7 +337,7 @@ def gen_program(rng, cls="plain", max_ops=10, max_depth=4, max_tags=48, loops=Tr
                 comp = [s for s in names if _is_prefix(shapes[s], shapes[x])]
                 xs.append(rng.choice(comp))
             f = rng.choice(list(FUNCS1)) if len(xs) == 1 else rng.choice(["pair", "add"])
-            try_add([{"k": "exec", "xs": xs, "o": fresh(), "f": f, "slow": 0}])
+            try_add([with_targets({"k": "exec", "xs": xs, "o": fresh(), "f": f, "slow": 0})])
         elif k == "scatter":
             if not streams[x] or not all(isinstance(v, list) for v in streams[x].values()):
                 # make it scatterable first
@@ -383,7 +392,7 @@ def gen_program(rng, cls="plain", max_ops=10, max_depth=4, max_tags=48, loops=Tr
                 continue
             y = fresh()
             first = ({"k": "shuf", "x": x, "o": y} if rng.random() < 0.6 else
-                     {"k": "exec", "xs": [x], "o": y, "f": rng.choice(["inc", "id", "dbl", "cnt"]), "slow": 0})
+                     with_targets({"k": "exec", "xs": [x], "o": y, "f": rng.choice(["inc", "id", "dbl", "cnt"]), "slow": 0}))
             if try_add([first]):
                 if rng.random() < 0.7:
                     xs = [x, y]
@@ -393,7 +402,8 @@ def gen_program(rng, cls="plain", max_ops=10, max_depth=4, max_tags=48, loops=Tr
                     try_add([{"k": "dot", "xs": [x, y], "os": [fresh(), fresh()]}])
         elif k == "loop":
             p, f = rng.choice(LOOPS)
-            try_add([{"k": "loop", "x": x, "o": fresh(), "p": p, "f": f, "body": rng.choice(["fn", "fn", "exec"])}])
+            lop = {"k": "loop", "x": x, "o": fresh(), "p": p, "f": f, "body": rng.choice(["fn", "fn", "exec"])}
+            try_add([with_targets(lop) if lop["body"] == "exec" else lop])
 
     # close some open dimensions (so that gathers occur after the nests)
     for _ in range(3):
@@ -423,7 +433,7 @@ def gen_program(rng, cls="plain", max_ops=10, max_depth=4, max_tags=48, loops=Tr
             if kk == "map":
                 side_ops.append({"k": "map", "x": x, "o": y, "f": rng.choice(["inc", "id", "wrap"]), "slow": slow if i == 0 else 0})
             elif kk == "exec":
-                side_ops.append({"k": "exec", "xs": [x], "o": y, "f": rng.choice(["inc", "id"]), "slow": slow if i == 0 else 0})
+                side_ops.append(with_targets({"k": "exec", "xs": [x], "o": y, "f": rng.choice(["inc", "id"]), "slow": slow if i == 0 else 0}))
             else:
                 side_ops.append({"k": "cond", "x": x, "o": y, "p": rng.choice(list(PREDS)), "f": "inc", "slow": slow if i == 0 else 0})
             x = y
@@ -477,6 +487,20 @@ CRAFTED = {
                 {"k": "map", "x": "p1", "o": "p3", "f": "wrap"},
                 {"k": "loop", "x": "p3", "o": "p2", "p": "pos", "f": "dec", "body": "fn"}],
         "outs": ["p2"], "fail": None, "cls": "plain"},
+    "exec_three_alternative_targets": {
+        "ops": [{"k": "src", "o": "s0", "v": [1, 2, 3]}, {"k": "scatter", "x": "s0", "o": "p1"},
+                {"k": "exec", "xs": ["p1"], "o": "p2", "f": "inc", "slow": 0, "targets": [0, 1, 2]},
+                {"k": "gather", "x": "p2", "o": "p3"}],
+        "outs": ["p3"], "fail": None, "cls": "plain"},
+    "fail_schedule_raises": {
+        "ops": [{"k": "src", "o": "s0", "v": [1, 2, 3]}, {"k": "scatter", "x": "s0", "o": "p1"},
+                {"k": "exec", "xs": ["p1"], "o": "p2", "f": "inc", "slow": 0}, {"k": "gather", "x": "p2", "o": "p3"}],
+        "outs": ["p3"], "fail": {"op": 2, "tag": "0.1", "mode": "sched_raise"}, "cls": "fail"},
+    "fail_command_status": {
+        "ops": [{"k": "src", "o": "s0", "v": [1, 2, 3]}, {"k": "scatter", "x": "s0", "o": "p1"},
+                {"k": "exec", "xs": ["p1"], "o": "p2", "f": "inc", "slow": 0, "targets": [0, 1]},
+                {"k": "gather", "x": "p2", "o": "p3"}],
+        "outs": ["p3"], "fail": {"op": 2, "tag": "0.2", "mode": "cmd_status"}, "cls": "fail"},
     "loop_completed_input": {
         "ops": [{"k": "src", "o": "s0", "v": 2}, {"k": "loop", "x": "s0", "o": "p1", "p": "pos", "f": "dec", "body": "exec"}],
         "outs": ["p1"], "fail": None, "cls": "plain"},
@@ -802,8 +826,9 @@ def build(prog, ctx, workdir):
     ports, sizeports, fam = {}, {}, {}
     inject = []
     fail = prog.get("fail") or {}
-    dc = DeploymentConfig(name="__LOCAL__", type="local", config={}, external=True, lazy=False, workdir=workdir)
-    holder = {"deploy": None}
+    DEPLOYMENTS = ("__LOCAL__", "__LOCAL_B__", "__LOCAL_C__")
+    dcs = [DeploymentConfig(name=n, type="local", config={}, external=True, lazy=False, workdir=workdir) for n in DEPLOYMENTS]
+    deploy_steps = {}
 
     def port(name, cls=None):
         return wf.create_port(name=name) if cls is None else wf.create_port(cls=cls, name=name)
@@ -813,18 +838,22 @@ def build(prog, ctx, workdir):
             return (fail["tag"],)
         return ()
 
-    def exec_pipeline(i, name, in_ports, out_port, f, slow):
-        """in_ports: {port name: Port} (already aligned when more than one)."""
-        if holder["deploy"] is None:
-            holder["deploy"] = wf.create_step(cls=DeployStep, name="/__deploy__/local", deployment_config=dc,
-                                              connector_port=port("conn", ConnectorPort))
-            fam["/__deploy__/local"] = ("deploy", None, None)
-        dstep = holder["deploy"]
+    def exec_pipeline(i, name, in_ports, out_port, f, slow, targets=None):
+        """in_ports: {port name: Port} (already aligned when more than one).  targets: deployment indices."""
+        use = []
+        for k in (targets or [0]):
+            if k not in deploy_steps:
+                sname = "/__deploy__/local" if k == 0 else f"/__deploy__/local{k}"
+                deploy_steps[k] = wf.create_step(cls=DeployStep, name=sname, deployment_config=dcs[k],
+                                                 connector_port=port("conn" if k == 0 else f"conn{k}", ConnectorPort))
+                fam[sname] = ("deploy", None, None)
+            use.append(k)
         sched_fail = failing(i, "sched_raise")
         ss = wf.create_step(cls=C.VfFailingSchedule if sched_fail else ScheduleStep, name=f"{name}/__schedule__",
-                            job_prefix=name, connector_ports={dc.name: dstep.get_output_port()},
+                            job_prefix=name,
+                            connector_ports={dcs[k].name: deploy_steps[k].get_output_port() for k in use},
                             job_port=port(f"job:{name}", JobPort),
-                            binding_config=BindingConfig(targets=[Target(deployment=dc, workdir=workdir)]))
+                            binding_config=BindingConfig(targets=[Target(deployment=dcs[k], workdir=workdir) for k in use]))
         if sched_fail:
             ss.fail_tags = sched_fail
         ex = wf.create_step(cls=ExecuteStep, name=name, job_port=ss.get_output_port())
@@ -892,7 +921,7 @@ def build(prog, ctx, workdir):
                     cs.add_output_port(pn, new[pn])
                 fam[cs.name] = ("dot", i, {"depths": {pn: _depth(shapes[x]) for pn, x in zip(ins, op["xs"])}})
                 ins = new
-            exec_pipeline(i, "/" + o, ins, ports[o], op["f"], op.get("slow", 0))
+            exec_pipeline(i, "/" + o, ins, ports[o], op["f"], op.get("slow", 0), op.get("targets"))
         elif k == "scatter":
             o = op["o"]
             ports[o] = port(o)
@@ -973,7 +1002,7 @@ def build(prog, ctx, workdir):
             # body
             p_body_out = port(f"{o}:bout")
             if op.get("body") == "exec":
-                exec_pipeline(i, base + "/body", {"a": p_body_in}, p_body_out, op["f"], 0)
+                exec_pipeline(i, base + "/body", {"a": p_body_in}, p_body_out, op["f"], 0, op.get("targets"))
             else:
                 fn_step(i, base + "/body", {"a": p_body_in}, p_body_out, op["f"], 0, failing(i, "fn_raise"))
             # output side: forwarder -> loop output step -> external port; skip port = forwarder output
